@@ -28,7 +28,11 @@ pub fn check_c06(c: &Case) -> CaseResult {
     r.transitions = 3;
     r.digests.push(wmodel::fnv(&out));
     if let Err(e) = wmodel::validate214(&out, wmodel::FeatureSet::DEFAULT) {
-        r.violations.push(Violation::new("C06", format!("invalid-after-gc:{}", crate::props::validity::norm_verr(&e)), e, c));
+        let mut sig = format!("invalid-after-gc:{}", crate::props::validity::norm_verr(&e));
+        if e.contains("undeclared function reference") {
+            sig = format!("{}:{}", sig, crate::props::validity::undeclared_kind(&c.wasm, &out));
+        }
+        r.violations.push(Violation::new("C06", sig, e, c));
         return r;
     }
     let (a, b) = match (decode(&c.wasm), decode(&out)) {
